@@ -153,8 +153,11 @@ def run_cli(csv_text, codec, config, blocked, scratch):
             json.dump(config, f)
     sink = io.StringIO()
     with contextlib.redirect_stdout(sink):
-        mci_csv_to_ipm.cli_run(in_filename=src, out_filename=ipm, in_encoding='utf8', out_encoding=codec, no1014blocking=not blocked, config_file=cfgfile)
-        rc = mci_ipm_to_csv.cli_run(in_filename=ipm, out_filename=dst, in_encoding=codec, out_encoding='utf8', no1014blocking=not blocked, config_file=cfgfile)
+        extra = ([] if blocked else ['--no1014blocking']) + (['--config-file', cfgfile] if cfgfile else [])
+        a1 = [src, '-o', ipm, '--in-encoding', 'utf8', '--out-encoding', codec] + extra
+        mci_csv_to_ipm.cli_run(**vars(mci_csv_to_ipm.cli_parser().parse_args(a1)))      # what cli_entry does with sys.argv
+        a2 = [ipm, '-o', dst, '--in-encoding', codec, '--out-encoding', 'utf8'] + extra
+        rc = mci_ipm_to_csv.cli_run(**vars(mci_ipm_to_csv.cli_parser().parse_args(a2)))
     if rc == -1:
         raise RuntimeError('mci_ipm_to_csv reported a data error: ' + sink.getvalue()[-400:])
     with open(dst, encoding='utf8', newline='') as f:
